@@ -123,6 +123,9 @@ Definition fast_read (w : N) (page : bytes) (n : N) : option (list N) :=
 Definition signed_view (k : nat) (v : N) : Z :=
   if v <? 2 ^ (8 * N.of_nat k - 1) then Z.of_N v else (Z.of_N v - 2 ^ (8 * Z.of_nat k))%Z.
 
+(* the view of core._index_dtype: signed or unsigned *)
+Definition view_value (signed : bool) (k : nat) (v : N) : Z := if signed then signed_view k v else Z.of_N v.
+
 Definition run_idec (d : idec) (w : N) (page : bytes) (n : N) : option (list N) :=
   match d with
   | DFast => fast_read w page n
